@@ -111,17 +111,6 @@ func (t TidyReader) Iterate(prefix []byte, limit int, reverse bool) []db.KeyValu
 	return t.D.Iterate(prefix, limit, reverse)
 }
 
-func keyUpperBound(b []byte) []byte {
-	end := append([]byte{}, b...)
-	for i := len(end) - 1; i >= 0; i-- {
-		end[i]++
-		if end[i] != 0 {
-			return end[:i+1]
-		}
-	}
-	return nil
-}
-
 func (t TidyReader) IterateRange(start, end []byte, limit int, reverse bool) []db.KeyValue {
 	iter := t.D.VerifPebble().NewIter(nil)
 	defer iter.Close()
@@ -141,13 +130,8 @@ func (t TidyReader) IterateRange(start, end []byte, limit int, reverse bool) []d
 		}
 		return out
 	}
-	ub := keyUpperBound(end)
-	ok := false
-	if ub == nil {
-		ok = iter.Last()
-	} else {
-		ok = iter.SeekLT(ub)
-	}
+	// the smallest key greater than end is end||0x00: seek the last key <= end
+	ok := iter.SeekLT(append(append([]byte{}, end...), 0))
 	for ; ok && iter.Valid(); ok = iter.Prev() {
 		if bytes.Compare(iter.Key(), start) < 0 {
 			break
